@@ -19,7 +19,12 @@ def plan(tier):
           (PG.reusable_resize(2, 3, None), b, dict(kinds=("K",)))]
     for code in (-11, -15, 3):
         pl.append((PG.kill_mix(2, None), 1, dict(kinds=("K",), kill_code=code)))
+    # "by any signal or exit status": every signal number and every exit status
+    for code in list(range(-64, 0)) + list(range(0, 256)):
+        pl.append((PG.die_code(code, 2 if code % 2 else 1), 0, dict(kinds=("P",))))
     if tier == "thorough":
+        for code in (-35, -64, -34, -1, 0, 1, 255, 254, 127):
+            pl.append((PG.die_code(code, 2), 1, dict(kinds=("P", "T"))))
         pl += [(PG.kill_mix(2, None), 2, dict(kinds=("P", "K"))),
                (PG.kill_mix(2, 0.05), 2, dict(kinds=("T", "K"))),
                (PG.kill_gate(2), 2, dict(kinds=("K",))),
